@@ -17,6 +17,8 @@ mod gen;
 mod monitors;
 mod hist;
 mod wf;
+mod c17x;
+mod props;
 
 use std::collections::BTreeMap;
 use std::time::Instant;
@@ -68,31 +70,12 @@ fn main() {
 
 fn dispatch(args: &Args) -> Report {
   let replay = match (args.get("mode"), args.get_u64("case")) {
-    (Some(m), Some(c)) => Some((m.to_string(), c)),
+    (Some(m), Some(c)) if args.get("sub") == Some("graph") || args.get("sub").is_none() => Some((m.to_string(), c)),
     _ => None,
   };
-  let class_replay = match (args.get("sub"), args.get_u64("case")) {
-    (Some(m), Some(c)) => Some((m.to_string(), c)),
-    _ => None,
-  };
-  let scale: u64 = (if args.tier == "thorough" { 40 } else { 1 }) * util::env_u64("PV_SCALE", 1);
-  use wf::ClassPlan as CP;
   match args.property.as_str() {
     "C10" => graphmon::run("C10", &args.tier, args.seed, replay),
     "C11" => graphmon::run("C11", &args.tier, args.seed, replay),
-    "C01" => wf::run_classes("C01", &args.tier, args.seed, &[CP { name: "td-exact", n: 1500 * scale }, CP { name: "td-mixed", n: 2500 * scale }], class_replay),
-    "C02" => wf::run_classes("C02", &args.tier, args.seed, &[CP { name: "td-exact", n: 2000 * scale }, CP { name: "td-mixed", n: 2000 * scale }], class_replay),
-    "C03" => wf::run_classes("C03", &args.tier, args.seed, &[CP { name: "pure-exact", n: 1500 * scale }, CP { name: "pure-mixed", n: 2500 * scale }, CP { name: "mixed-any", n: 2000 * scale }], class_replay),
-    "C04" => wf::run_classes("C04", &args.tier, args.seed, &[CP { name: "pure-exact", n: 2000 * scale }, CP { name: "pure-mixed", n: 3000 * scale }], class_replay),
-    "C08" => wf::run_classes("C08", &args.tier, args.seed, &[CP { name: "td-any", n: 2000 * scale }, CP { name: "mixed-any", n: 2000 * scale }, CP { name: "mixed-multi", n: 1500 * scale }], class_replay),
-    "C09" => wf::run_classes("C09", &args.tier, args.seed, &[CP { name: "td-mixed", n: 2500 * scale }, CP { name: "pure-mixed", n: 2500 * scale }], class_replay),
-    "C17" => wf::run_classes("C17", &args.tier, args.seed, &[CP { name: "mixed-any", n: 2500 * scale }, CP { name: "mixed-faulty", n: 1500 * scale }, CP { name: "mixed-fc", n: 1000 * scale }], class_replay),
-    "C18" => wf::run_classes("C18", &args.tier, args.seed, &[CP { name: "td-fc-any", n: 2500 * scale }, CP { name: "pure-fc-any", n: 2500 * scale }], class_replay),
-    "C20" => wf::run_classes("C20", &args.tier, args.seed, &[CP { name: "td-any", n: 2000 * scale }, CP { name: "pure-any", n: 2000 * scale }, CP { name: "mixed-any", n: 1000 * scale }], class_replay),
-    other => {
-      let mut r = Report::new();
-      r.inconclusive.push(format!("no monitor for property {}", other));
-      r
-    }
+    _ => props::run(args),
   }
 }
